@@ -97,7 +97,7 @@ def one(ctx, rng, xr, utils):
     dw = int(rng.choice([w for w in range(1, nd + 1, 2)]))
     even = rng.random() < 0.08
     key = "%s|%s|nf=%d|nd=%d|full=%s:%s|fw=%d|dw=%d|lead=%d|%s" % (stored, dt, nf, nd, full, conv, fw, dw, len(lnames), cls)
-    via = str(rng.choice(["accessor", "function", "dataset"]))
+    via = str(rng.choice(["accessor", "function", "dataset", "function_on_dataset"]))
 
     if rng.random() < 0.3:
         # spectral dims not last / dir before freq: the result must come back in exactly this order
@@ -126,6 +126,15 @@ def one(ctx, rng, xr, utils):
             return x.spec.smooth(freq_window=fw_, dir_window=dw_)
         if via == "dataset":
             return x.to_dataset(name="efth").spec.smooth(freq_window=fw_, dir_window=dw_)
+        if via == "function_on_dataset":
+            # the documented Dataset input of the helper; the Dataset lists its dimensions in another order than the spectra
+            # variable holds them (coordinates handed over in another order, another variable stored in front)
+            import xarray as xr_
+            first = xr_.DataArray(np.zeros(x.sizes[x.dims[-1]]), dims=(x.dims[-1],), coords={x.dims[-1]: x[x.dims[-1]].values})
+            dsx = xr_.Dataset({"aux": first, "efth": x})
+            out = utils.smooth_spec(dsx, freq_window=fw_, dir_window=dw_)
+            rec.note("helper_called_on_dataset_with_other_dimension_listing")
+            return out["efth"] if hasattr(out, "data_vars") else out
         return utils.smooth_spec(x, freq_window=fw_, dir_window=dw_)
 
     if even:
